@@ -683,6 +683,14 @@ class ComponentState(object):
         self.log.info("Finish called for component %s with finalState %s" % (
             self.specification.identification, finalState))
 
+        if self.controllerState in [experiment.model.codes.FINISHED_STATE, experiment.model.codes.FAILED_STATE,
+                                    experiment.model.codes.SHUTDOWN_STATE]:
+            # VV: A component has exactly one final state, e.g. a component that the controller shutdown while its
+            # POSTMORTEM notification was still queued must not transition to failed when that notification is handled
+            self.log.info("Component %s is already in its final state %s - will not transition it to %s" % (
+                self.specification.identification, self.controllerState, finalState))
+            return
+
         self._finishedCalled = True
 
         # Protocol
